@@ -214,7 +214,7 @@ def ref_eval(node, env):
         a, sha = ref_eval(node[2], env)
         b, shb = ref_eval(node[3], env)
         return sym_ite(sel != 0, a, b), unify([sha, shb])
-    if k == "array":
+    if k in ("array", "arrayp"):
         elems = [ref_eval(e, env) for e in node[1]]
         i, (wi, si) = ref_eval(node[2], env)
         r = elems[-1][0]
@@ -251,7 +251,7 @@ def array_in_range_assumptions(node, env):
     """Constraints 'index < len(array)' for every array node (in-range indexing only)."""
     out = []
     if isinstance(node, (list, tuple)):
-        if node and node[0] == "array":
+        if node and node[0] in ("array", "arrayp"):
             i, _ = ref_eval(node[2], env)
             c = i < len(node[1])
             out.append(c)
